@@ -1,10 +1,13 @@
 package masks
 
 import (
+	"strings"
+
 	"github.com/mennanov/fmutils"
 	"google.golang.org/grpc/codes"
 	"google.golang.org/grpc/status"
 	"google.golang.org/protobuf/proto"
+	"google.golang.org/protobuf/reflect/protoreflect"
 	"google.golang.org/protobuf/types/known/fieldmaskpb"
 )
 
@@ -41,11 +44,12 @@ func (r *ResponseFilter) Filter(msg proto.Message) {
 	if msg == nil {
 		return
 	}
-	if len(r.fields.GetPaths()) == 0 {
+	paths := r.filterPaths(msg)
+	if len(paths) == 0 {
 		proto.Reset(msg)
 		return
 	}
-	fmutils.Filter(msg, r.fields.GetPaths())
+	fmutils.Filter(msg, paths)
 }
 
 // FilterClone is like Filter but clones and returns a new msg instead of modifying the original.
@@ -56,14 +60,47 @@ func (r *ResponseFilter) FilterClone(msg proto.Message) proto.Message {
 	if msg == nil {
 		return msg
 	}
-	if len(r.fields.GetPaths()) == 0 {
+	paths := r.filterPaths(msg)
+	if len(paths) == 0 {
 		clone := proto.Clone(msg)
 		proto.Reset(clone)
 		return clone
 	}
 	clone := proto.Clone(msg)
-	fmutils.Filter(clone, r.fields.GetPaths())
+	fmutils.Filter(clone, paths)
 	return clone
+}
+
+// filterPaths returns the paths of the configured mask in a form that is safe to filter msg with.
+// Paths are normalised, so that a field listed together with one of its sub-fields selects the whole field,
+// and paths that can't select anything - those that continue through a scalar, map or repeated scalar field -
+// are dropped instead of making the filter panic. Use Validate to report such masks to the caller.
+func (r *ResponseFilter) filterPaths(msg proto.Message) []string {
+	paths := make([]string, 0, len(r.fields.GetPaths()))
+	for _, path := range r.fields.GetPaths() {
+		if filterablePath(msg.ProtoReflect().Descriptor(), path) {
+			paths = append(paths, path)
+		}
+	}
+	return fieldmaskpb.Union(&fieldmaskpb.FieldMask{Paths: paths}, nil).GetPaths()
+}
+
+func filterablePath(md protoreflect.MessageDescriptor, path string) bool {
+	for _, name := range strings.Split(path, ".") {
+		if md == nil {
+			return false // the previous segment was not a message
+		}
+		fd := md.Fields().ByName(protoreflect.Name(name))
+		if fd == nil {
+			return true // unknown fields never match anything
+		}
+		if fd.IsMap() {
+			md = nil
+		} else {
+			md = fd.Message()
+		}
+	}
+	return true
 }
 
 type ResponseFilterOption func(*ResponseFilter)
